@@ -81,6 +81,17 @@ fn region_of(v: &Value, sr: u32, secs: bool) -> Option<Region> {
 }
 
 /// exact scaled integer + inexactness flag
+/// the reported position in whole frames, rounded down ("names the frame being heard to within one frame": a position
+/// between two frames is as good as either); px = 1: not a usable number
+fn frames_of(x: f64, scale: f64) -> (i64, i64) {
+	if !x.is_finite() || (x * scale).abs() > 2.0e9 {
+		return (0, 1);
+	}
+	// (seconds -> frames is exact only for dyadic sample rates: allow the rounding of one division)
+	(((x * scale) + 1e-6).floor() as i64, 0)
+}
+
+#[allow(dead_code)]
 fn scaled(x: f64, scale: f64) -> (i64, i64) {
 	if !x.is_finite() {
 		return (0, 1);
@@ -131,10 +142,7 @@ fn session(sc: Value, log: Arc<Mutex<Vec<Value>>>) {
 	};
 	{
 		// what the handle reports before the audio thread has seen the sound
-		let (pos, mut px) = scaled(handle.position(), sr as f64);
-		if px == 1 && (handle.position() * sr as f64 - pos as f64).abs() < 1e-6 {
-			px = 0;
-		}
+		let (pos, px) = frames_of(handle.position(), sr as f64);
 		ev(json!({"a": "made", "pos": pos, "px": px}));
 	}
 	let info = MockInfoBuilder::new().build();
@@ -148,11 +156,7 @@ fn session(sc: Value, log: Arc<Mutex<Vec<Value>>>) {
 					ev(json!({"a": "panic", "who": "on_start_processing", "msg": msg}));
 					return;
 				}
-				let (pos, mut px) = scaled(handle.position(), sr as f64);
-				// seconds -> frames is exact only for dyadic sample rates; allow the rounding of one division
-				if px == 1 && (handle.position() * sr as f64 - pos as f64).abs() < 1e-6 {
-					px = 0;
-				}
+				let (pos, px) = frames_of(handle.position(), sr as f64);
 				ev(json!({"a": "begin", "pos": pos, "px": px, "st": state_name(handle.state())}));
 			}
 			"Proc" => {
